@@ -10,6 +10,7 @@ import (
 	"pgregory.net/rapid"
 
 	"verif/astx"
+	"verif/cli"
 	"verif/harness"
 	"verif/inputs"
 	"verif/oracle"
@@ -199,6 +200,16 @@ func TestReplay(t *testing.T) {
 	vi, src, err := harness.LoadReplay(path)
 	if err != nil {
 		t.Fatal(err)
+	}
+	if tree := cli.DecodeTree(vi.Meta["tree"]); tree != nil && cli.Path() != "" {
+		// a command-line case: the whole recorded directory goes through `php-parser -pb` again
+		var v px.Ver
+		fmt.Sscanf(vi.Meta["version"], "%d.%d", &v.Major, &v.Minor)
+		harness.EvalN(len(tree))
+		if c, m, culprit, skip := printBack(cli.Path(), tree, v); c != "" && !skip {
+			harness.Failf(t, "cli-print-back/"+c, culprit, vi.Meta, "%s", m)
+		}
+		return
 	}
 	for _, v := range px.AllVersions {
 		if vi.Meta["version"] != "" && vi.Meta["version"] != v.String() {
